@@ -280,13 +280,25 @@ func (ps *PubSub) subscribe(conn redcon.Conn, pattern bool, channel string) {
 	defer sconn.mu.Unlock()
 
 	// add an entry to the pubsub btree
-	entry := &pubSubEntry{
-		pattern: pattern,
-		channel: channel,
-		sconn:   sconn,
+	// Subscribing again to the same channel or pattern is idempotent. A second
+	// entry would replace the first one in the tree but stay in sconn.entries,
+	// survive the unsubscribe and keep showing up in CHANNELS / NUMSUB / NUMPAT.
+	var entry *pubSubEntry
+	for ient := range sconn.entries {
+		if ient.pattern == pattern && ient.channel == channel {
+			entry = ient
+			break
+		}
 	}
-	ps.chans.Set(entry)
-	sconn.entries[entry] = true
+	if entry == nil {
+		entry = &pubSubEntry{
+			pattern: pattern,
+			channel: channel,
+			sconn:   sconn,
+		}
+		ps.chans.Set(entry)
+		sconn.entries[entry] = true
+	}
 
 	// send a message to the client
 	sconn.dconn.WriteArray(3)
@@ -386,12 +398,17 @@ func (ps *PubSub) Channels() []string {
 		return nil
 	}
 
+	// Distinct channels: several connections may be subscribed to the same one.
 	var channels []string
+	seen := make(map[string]struct{})
 	for _, sconn := range ps.conns {
 		sconn.mu.Lock()
 		for ient := range sconn.entries {
 			if !ient.pattern {
-				channels = append(channels, ient.channel)
+				if _, ok := seen[ient.channel]; !ok {
+					seen[ient.channel] = struct{}{}
+					channels = append(channels, ient.channel)
+				}
 			}
 		}
 		sconn.mu.Unlock()
@@ -408,12 +425,17 @@ func (ps *PubSub) ChannelsWithPatterns(pattern string) []string {
 		return nil
 	}
 
+	// Distinct channels (not pattern subscriptions) matching the given pattern.
 	var channels []string
+	seen := make(map[string]struct{})
 	for _, sconn := range ps.conns {
 		sconn.mu.Lock()
 		for ient := range sconn.entries {
-			if match.Match(ient.channel, pattern) {
-				channels = append(channels, ient.channel)
+			if !ient.pattern && match.Match(ient.channel, pattern) {
+				if _, ok := seen[ient.channel]; !ok {
+					seen[ient.channel] = struct{}{}
+					channels = append(channels, ient.channel)
+				}
 			}
 		}
 		sconn.mu.Unlock()
@@ -456,7 +478,7 @@ func (ps *PubSub) Numsub(channel string) int {
 	for _, sconn := range ps.conns {
 		sconn.mu.Lock()
 		for ient := range sconn.entries {
-			if ient.channel == channel {
+			if !ient.pattern && ient.channel == channel {
 				result++
 			}
 		}
